@@ -73,7 +73,7 @@ fn fake_header(net: NetID, height: u64, salt: u8) -> Header {
 
 pub fn run(p: &Params) -> Report {
     let mut rep = Report::new("C18");
-    rep.rule = "cases = DoscMint transactions applied to fabricated states: real MelPoW proofs generated with the harness's own legacy and TIP-910 hash functions (difficulty 1..10 quick, ..14 thorough), coin ages 1..200, previous DOSC speeds 1..10^6 so that the reward ranges from 0 to large, ERG created at reward-1 / reward / reward+1, on custom networks and on mainnet (age below/at/above 100); corruptions: flipped proof byte, dropped node, proof for another coin / another creation height, stated difficulty +-1, garbage data, several mints in one block. Oracle: accept iff data decodes, the proof verifies (reference call into melpow with the harness's hashers) for puzzle = keyed-hash(header at the coin's creation height, coin id), ERG <= floor(inflator(h) * floor(work*speed*10^6/(prev_speed^2*2880)) / 10^6), and on mainnet age >= 100; sealed dosc_speed = max(previous, speeds of accepted mints) and never decreases. Non-trivial = every case; distinct by transaction hash".into();
+    rep.rule = "cases = DoscMint transactions applied to fabricated states: real MelPoW proofs generated with the harness's own legacy and TIP-910 hash functions (difficulty 1..10 quick, ..14 thorough), coin ages 1..200 at heights around 1.1 million and on young chains of 2..141 blocks (coins of the genesis block), previous DOSC speeds 1..10^6 so that the reward ranges from 0 to large, ERG created at reward-1 / reward / reward+1, on custom networks and on mainnet (age below/at/above 100); corruptions: flipped proof byte, dropped node, proof for another coin / another creation height, stated difficulty +-1, garbage data, several mints in one block. Oracle: accept iff data decodes, the proof verifies (reference call into melpow with the harness's hashers) for puzzle = keyed-hash(header at the coin's creation height, coin id), ERG <= floor(inflator(h) * floor(work*speed*10^6/(prev_speed^2*2880)) / 10^6), and on mainnet age >= 100; sealed dosc_speed = max(previous, speeds of accepted mints) and never decreases. Non-trivial = every case; distinct by transaction hash".into();
     let total = p.n(4000, 80000);
     let mine = p.share(total);
     let mut rng = Rng::new(p.shard_seed() ^ 0xC18);
@@ -87,9 +87,12 @@ pub fn run(p: &Params) -> Report {
         }
         let mut r = Rng::new(case_seed);
         let net = *r.pick(&[NetID::Custom02, NetID::Custom08, NetID::Testnet, NetID::Mainnet, NetID::Mainnet]);
-        let h = 1_100_000 + r.below(1000); // sealed height; the mint is applied at h+1
+        // sealed height; the mint is applied at h+1. One case in six is a young chain (fewer than ~150 blocks),
+        // where coins of the genesis block are younger than the mainnet minimum age
+        let young = r.chance(1, 6);
+        let h = if young { 1 + r.below(140) } else { 1_100_000 + r.below(1000) };
         let apply_h = h + 1;
-        let age = match r.below(6) {
+        let mut age = match r.below(6) {
             0 => 1,
             1 => 2,
             2 => 99,
@@ -97,6 +100,9 @@ pub fn run(p: &Params) -> Report {
             4 => 101 + r.below(100),
             _ => 1 + r.below(200),
         };
+        if age > apply_h || (young && r.chance(1, 2)) {
+            age = apply_h; // a coin of the genesis block (height 0)
+        }
         let coin_h = apply_h - age;
         let prev_speed: u128 = *r.pick(&[1u128, 2, 10, 100, 1000, 10_000, 1_000_000]);
         let tip910 = r.chance(1, 2);
